@@ -106,6 +106,15 @@ func CreateEngine(opts Options) (*Engine, error) {
 	// set catalog
 	e.catalog = data
 
+	// continue event ids after the newest loaded event so that a restart
+	// within the same second does not reuse the id of a persisted event
+	if oplog := data.Namespaces[Oplog]; oplog != nil && len(oplog.Documents.List) > 0 {
+		last := oplog.Documents.List[len(oplog.Documents.List)-1]
+		if ts, ok := bsonkit.Get(last, "_id.ts").(primitive.Timestamp); ok {
+			bsonkit.Advance(ts)
+		}
+	}
+
 	// run expiry
 	e.tomb.Go(func() error {
 		e.expire(opts.ExpireInterval, opts.ExpireErrors)
